@@ -29,11 +29,14 @@ CLAIMED['C05'] = dict(
          'well-formed PELs (all section kinds, shipped plugins included) plus random strings, under python and '
          'python -O, with every cursor movement logged by a DataStream subclass; TLC judges each logged event as a '
          'step of the cursor machine and each outcome against the statement (allowed outcomes, prefixes rejected, '
-         'bounded work, python = python -O); a sample runs through the real command line as subprocesses.',
-    design='DESIGN.md 4.3, 5 C05',
+         'bounded work, python = python -O); a sample runs through the real command line as subprocesses.  '
+         'DataStreamProof.tla proves InBounds, NoFabrication, Monotone and RaisedIsFinal with the TLA+ proof system for '
+         'inputs of every size and all integer requests (53 obligations, re-checked on every run); MC_PelDecoder '
+         'model-checks parsePEL over every PEL of <= 3 sections x every truncation length.',
+    design='DESIGN.md 4.3, 5 C05, 17.2',
     note='Trusted: TLC; the traced DataStream subclass calls the real methods.  Any Exception subclass counts as an '
          'ordinary error.  Value space is sampled (prefixes exhaustive per base PEL, corruptions 1-3 values per offset).',
-    technique='TLC model checking of DataStream.tla + TLC trace validation of recorded cursor events and outcomes of the real decoder (python and python -O)')
+    technique='TLC model checking of DataStream.tla / PelDecoder.tla + TLAPS proof of cursor safety (unbounded) + TLC trace validation of recorded cursor events and outcomes of the real decoder (python and python -O)')
 
 CLAIMED['C12'] = dict(
     text='TLC model-checks CleanWrite.tla - one action per step of the decode/open/write/flush/close/unlink protocol '
